@@ -32,6 +32,40 @@ def check(model: Model, rep: Report, tier: str):
     rep.rules_text["C06.U3"] = ("each copy starts when the latest-ending leaf of what precedes it has ended: MultiRelationLink picks the latest member of "
                                 "the whole group (= C01.R4) and extend() chains every head of the appended copy to all current leaves (= C01.R7)")
     u4(model, rep)
+    u5(model, rep)
+
+
+def u5(model: Model, rep: Report):
+    """U5: the count that drives unrolling is the configured one *now*: no memo between the repetition registry and repeat()."""
+    rep.rule("C06.U5", "the repetition count used by apply_modifiers is the count configured at that moment: every memoised function on the path from "
+                       "apply_modifiers_to_self to the repetition strategies / registry is invalidated by each writer of what it reads (= C03.H1 restricted to that path)")
+    from ..effects import Effects
+    from ..resolve import CallGraph
+    from .c03 import h1, memo_functions
+    cg = CallGraph(model)
+    K = model.cls("CircuitCompositeOperation")
+    roots = [K.resolve("apply_modifiers_to_self")] + [f for f in (K.properties.get("nr_of_repetitions"),) if f is not None]
+    reach = set(cg.reachable(roots))
+    memos = [m for m in memo_functions(model) if m in reach]
+    rep.analysed["C06.U5 functions reachable from unrolling"] = len(reach)
+    if not memos:
+        rep.ok("C06.U5", "CircuitCompositeOperation.apply_modifiers_to_self[memoised callees]", roots[0].loc, found=f"no memoised function among {len(reach)} reachable functions",
+               required="none, or each invalidated by the writers of what it reads")
+        return
+    sub = Report(rep.prop_id, rep.tier, rep.src_root, quiet=True, write=False)
+    h1(model, sub, cg, Effects(model, cg))
+    tails = tuple(f"read by {m.qualname}]" for m in memos)
+    n = 0
+    for o in sub.obligations:
+        if o["construct"].endswith(tails):
+            o = dict(o)
+            o["rule"] = "C06.U5"
+            rep.obligations.append(o)
+            n += 1
+    if n == 0:
+        # a memo on the path whose reads have no writer at all cannot go stale
+        rep.ok("C06.U5", "CircuitCompositeOperation.apply_modifiers_to_self[memoised callees]", roots[0].loc, found=f"{[m.qualname for m in memos]}: nothing they read is written outside constructors",
+               required="none, or each invalidated by the writers of what it reads")
 
 
 def u1(model: Model, rep: Report):
